@@ -269,7 +269,7 @@ func allowed2xx(ops []apiOp, method, rawTarget string) bool {
 
 func TestC18_ReadOnlyMode(t *testing.T) {
 	rec := recorder("C18")
-	rec.AddRule("the real router (kprapi.Server.setupRouter via hook) over the real schema on pgfake, write operations disabled: raw HTTP requests (parsed by http.ReadRequest as a server would) with method in {GET,POST,PUT,DELETE,PATCH,HEAD,OPTIONS,lower/mixed case,FOO,CONNECT,TRACE} x path built from the OpenAPI document's own templates (kproapi.GetSwagger) with parameter substitution and 0-3 spelling mutations (trailing/duplicate slash, case, percent-encoded letter or slash, dot and dot-dot segments through another operation, query, fragment, ;params, backslash, NUL, suffix, absolute URI, /v1 prefix variants, method-override header) and valid/invalid JSON bodies. Oracle: the shutdown and decryption-trigger channels never receive anything; a 2xx answer is attributable to a read-only operation of the spec (or a non-API route); the same request twice gives the same status; every read-only operation stays reachable (ping=200 pong, eons=200, decryptionKey=200/404, never 403); with writes enabled the canonical write requests do reach both channels (non-vacuity). non-trivial = request whose cleaned, decoded path equals a write operation's path under some spelling; distinct by raw request")
+	rec.AddRule("the real router (kprapi.Server.setupRouter via hook) over the real schema on pgfake, write operations disabled: raw HTTP requests (parsed by http.ReadRequest as a server would) with method in {GET,POST,PUT,DELETE,PATCH,HEAD,OPTIONS,lower/mixed case,FOO,CONNECT,TRACE} x path built from the OpenAPI document's own templates (kproapi.GetSwagger) with parameter substitution and 0-3 spelling mutations (trailing/duplicate slash, case, percent-encoded letter or slash, dot and dot-dot segments through another operation, query, fragment, ;params, backslash, NUL, suffix, absolute URI, /v1 prefix variants, method-override header) and valid/invalid JSON bodies. Oracle: the shutdown and decryption-trigger channels never receive anything; a 2xx answer is attributable to a read-only operation of the spec (or a non-API route); the same request twice gives the same status; every read-only operation stays reachable (ping=200 pong, eons=200, decryptionKey=200/404, never 403), also when asked for on a fresh router right after the generated request (a third of the cases); with writes enabled the canonical write requests do reach both channels (non-vacuity). non-trivial = request whose cleaned, decoded path equals a write operation's path under some spelling; distinct by raw request")
 	rec.Assume("pgfake for the read-only queries; http.ReadRequest models what net/http hands to the router")
 	ops := specOps()
 	var writeOps, readOps []apiOp
@@ -338,9 +338,29 @@ func TestC18_ReadOnlyMode(t *testing.T) {
 			a.db.Srv.SetFault(a.db.Srv.RoundTrips()+1, pgfake.FaultDropBefore)
 			desc += " [database connection drops at the next statement]"
 		}
+		freshProbe := !dbFault && rapid.IntRange(0, 2).Draw(rt, "freshProbe") == 0
+		if freshProbe {
+			// a router of its own: the generated request comes first, then the read-only operations are asked
+			// for (whatever the first request left behind must not hide them)
+			a = newAPIServer(false)
+			defer a.Close()
+			desc += " [then GET ping, eons, decryptionKey on the same fresh router]"
+		}
 		st1, _, ok := a.do(raw)
 		if dbFault {
 			a.db.Srv.SetFault(0, pgfake.FaultNone)
+		}
+		if freshProbe && ok {
+			if st, body, _ := a.do("GET /v1/ping HTTP/1.1\r\nHost: x\r\n\r\n"); st != 200 || body != "pong" {
+				fatalf(rt, "read-only-op-unreachable", "GET /v1/ping = %d %q after the request\nrequest: %s", st, body, desc)
+			}
+			if st, _, _ := a.do("GET /v1/eons HTTP/1.1\r\nHost: x\r\n\r\n"); st != 200 {
+				fatalf(rt, "read-only-op-unreachable", "GET /v1/eons = %d after the request\nrequest: %s", st, desc)
+			}
+			kp := "/v1/decryptionKey/1/0x" + strings.Repeat("ab", 32)
+			if st, _, _ := a.do("GET " + kp + " HTTP/1.1\r\nHost: x\r\n\r\n"); st != 200 && st != 404 {
+				fatalf(rt, "read-only-op-unreachable", "GET %s = %d after the request\nrequest: %s", kp, st, desc)
+			}
 		}
 		if !ok {
 			rec.Label("unparseable-request")
@@ -377,6 +397,9 @@ func TestC18_ReadOnlyMode(t *testing.T) {
 		}
 		if dbFault {
 			labels = append(labels, "database-fault-armed")
+		}
+		if freshProbe {
+			labels = append(labels, "read-only-operations-asked-for-after-the-request")
 		}
 		rec.Case(desc, nt, labels...)
 	})
